@@ -8,7 +8,8 @@
 //   - DER length / TLV encoding and a strict recursive DER reader (X.690 8.1, 10.1).
 //
 // SelfTest reproduces the MS-NLMP 4.2.4 example (NTProofStr, LMv2 response, CHALLENGE and
-// AUTHENTICATE message bytes) and the X.690 length forms.
+// AUTHENTICATE message bytes) and the X.690 length forms, and cross-checks encoder, readers
+// and verifier against github.com/Azure/go-ntlmssp (crosscheck.go).
 package refntlm
 
 import (
@@ -778,5 +779,5 @@ func SelfTest() error {
 	if err != nil || info.InnerTag != 0xa0 || len(info.Token) != 40 || !bytes.Equal(info.Token[:8], Signature) {
 		return fail("ReadSpnego(RFC 4178 NegTokenInit): %+v %v", info, err)
 	}
-	return nil
+	return crossCheckThirdParty()
 }
